@@ -2,6 +2,10 @@
   C16 — property theorems.  Statements in words: design/C16.md.
 -/
 import Vita.C16.Lemmas
+import Vita.C16.Gen
+import Vita.C16.Bridge
+import Vita.C16.Weights
+import Vita.C16.ProtoLemmas
 import Vita.Common.RngLemmas
 namespace Vita.C16
 
@@ -40,37 +44,16 @@ theorem holdoutStep_perm {α} {p run : Nat} {pre post : Sets α} (h : HoldoutSte
 /-- Nothing is lost, duplicated or altered: for ALL draws, percentages, run numbers and contents of
     both sets, training ++ validation after `init` is a permutation of training ++ validation before. -/
 theorem holdout_perm {α} (draw : Nat → Nat) (p run : Nat) (s : Sets α) :
-    ((holdoutInit draw p run s).tr ++ (holdoutInit draw p run s).va).Perm (s.tr ++ s.va) := by
-  unfold holdoutInit
-  split
-  · exact List.Perm.refl _
-  · simp only
-    have hsh := shuffleTail_perm draw (s.tr.length - skipOf s.tr.length p) (s.tr.length - 1) s.tr
-    generalize shuffleTail draw _ _ s.tr = sh at *
-    have : (sh.take (skipOf s.tr.length p) ++ (s.va ++ sh.drop (skipOf s.tr.length p))).Perm
-        (s.va ++ (sh.take (skipOf s.tr.length p) ++ sh.drop (skipOf s.tr.length p))) := by
-      rw [← List.append_assoc, ← List.append_assoc]
-      exact List.Perm.append_right _ List.perm_append_comm
-    refine this.trans ?_
-    rw [List.take_append_drop]
-    exact (List.Perm.append_left _ hsh).trans List.perm_append_comm
+    ((holdoutInit draw p run s).tr ++ (holdoutInit draw p run s).va).Perm (s.tr ++ s.va) :=
+  holdoutInit_perm draw p run s
 
 /-- After the set-up (run 0) the training set has the computed share `max (n·(100−p)/100) 1`
     and is never empty; the validation set receives exactly the remaining `n − share` examples. -/
 theorem holdout_share {α} (draw : Nat → Nat) (p : Nat) (s : Sets α) (hn : 1 ≤ s.tr.length) :
     (holdoutInit draw p 0 s).tr.length = max (s.tr.length * (100 - p) / 100) 1 ∧
     (holdoutInit draw p 0 s).tr ≠ [] ∧
-    (holdoutInit draw p 0 s).va.length = s.va.length + (s.tr.length - max (s.tr.length * (100 - p) / 100) 1) := by
-  have hsh := shuffleTail_perm draw (s.tr.length - skipOf s.tr.length p) (s.tr.length - 1) s.tr
-  have hle := skipOf_le s.tr.length p hn
-  have hpos := skipOf_pos s.tr.length p
-  have hlen := hsh.length_eq
-  have h1 : (holdoutInit draw p 0 s).tr.length = skipOf s.tr.length p := by
-    simp only [holdoutInit, Nat.lt_irrefl, ↓reduceIte, List.length_take]; omega
-  refine ⟨h1, ?_, ?_⟩
-  · intro h; rw [h] at h1; simp at h1; omega
-  · simp only [holdoutInit, Nat.lt_irrefl, ↓reduceIte, List.length_append, List.length_drop]
-    unfold skipOf at *; omega
+    (holdoutInit draw p 0 s).va.length = s.va.length + (s.tr.length - max (s.tr.length * (100 - p) / 100) 1) :=
+  holdoutInit_share draw p s hn
 
 /-- Later runs leave the split alone. -/
 theorem holdout_later_runs_id {α} (draw : Nat → Nat) (p run : Nat) (s : Sets α) (h : 0 < run) :
@@ -99,43 +82,8 @@ theorem holdout_draw_in_bounds (i : Nat) (e : Vita.Rng.Xo) (hi : i + 1 ≤ 2 ^ 6
 /-- `shake_impl` satisfies the reshuffle relation: both sets non-empty, selected examples have their
     counters restarted, validation examples are unaltered members of the pool, payload conserved. -/
 theorem shakeImpl_step (P : Partitioner) (ts : Nat → Nat) (hts : TsOK ts) (sel : Nat → Bool) (s : St)
-    (hn : 2 ≤ s.tr.length + s.va.length) : ReshuffleStep s (shakeImpl P ts sel s) := by
-  unfold shakeImpl moveToValidation
-  simp only
-  generalize htag : ((s.va ++ s.tr).zipIdx.map fun (e, i) => (e, sel i)) = tagged
-  have hperm := P.perm (fun (x : Ex × Bool) => !x.2) tagged
-  generalize P.run (fun (x : Ex × Bool) => !x.2) tagged = parted at *
-  have hv : (parted.map (·.1)).Perm (s.va ++ s.tr) := by
-    have := hperm.map (·.1)
-    rw [← htag, tagged_fst] at this
-    exact this
-  have hlen : parted.length = s.va.length + s.tr.length := by
-    have := hv.length_eq; simpa using this
-  have hc : parted.countP (fun x => !x.2) ≤ parted.length := List.countP_le_length
-  have hp := pivot_inside ts hts parted.length (parted.countP (fun x => !x.2)) (by omega) hc
-  simp only at hp
-  generalize (if parted.countP (fun x => !x.2) = 0 ∨ parted.countP (fun x => !x.2) = parted.length
-      then ts parted.length else parted.countP (fun x => !x.2)) = pivot at *
-  generalize parted.map (·.1) = v at *
-  have hvl : v.length = parted.length := by have := hv.length_eq; simp at this; omega
-  refine ⟨?_, ?_, ?_, ?_, ?_⟩
-  · intro h
-    have := congrArg List.length h
-    simp [resetAD_length] at this; omega
-  · intro h
-    have : (v.take pivot).length = 0 := by
-      have := congrArg List.length h
-      exact this
-    rw [List.length_take] at this; omega
-  · intro e he; exact mem_resetAD he
-  · intro e _
-    calc (v.take pivot).count e ≤ v.count e := (List.take_sublist _ _).count_le _
-      _ = (s.va ++ s.tr).count e := hv.count_eq e
-  · rw [ids_append, ids_resetAD, ← ids_append]
-    have h1 : (v.drop pivot ++ v.take pivot).Perm v := by
-      have := List.take_append_drop pivot v
-      exact List.perm_append_comm.trans (by rw [this])
-    exact (h1.map _).trans (hv.map _)
+    (hn : 2 ≤ s.tr.length + s.va.length) : ReshuffleStep s (shakeImpl P ts sel s) :=
+  shakeImpl_reshuffle P ts hts sel s hn
 
 /-- every call of the modelled `dss` interface satisfies the step relation decided by the driver -/
 theorem dss_step_init (P ts) (hts : TsOK ts) (sel run) (s : St) (hn : 2 ≤ s.tr.length + s.va.length) :
@@ -237,11 +185,235 @@ theorem dss_history_perm (P ts) (hts : TsOK ts) (calls : List (Call × (Nat → 
       simp [ids] at this; omega
     exact (ih _ hlen).trans h1
 
+
+/-! ## hold-out reports the change (vita 6f58ae1) -/
+
+/-- `init(0)` clears the training evaluator exactly when the strategy was constructed with one; later
+    runs clear nothing. -/
+theorem holdout_reports {α} (draw : Nat → Nat) (p run : Nat) (hasEva : Bool) (s : Sets α) :
+    ((holdoutInitR draw p run hasEva s).clears = 1 ↔ run = 0 ∧ hasEva = true) ∧
+    ((holdoutInitR draw p run hasEva s).clears = 0 ↔ ¬ (run = 0 ∧ hasEva = true)) ∧
+    (holdoutInitR draw p run hasEva s).st = holdoutInit draw p run s := by
+  unfold holdoutInitR
+  simp only
+  split <;> simp_all
+
+/-- the model satisfies the relation (with the clear count) the driver decides on observed hold-out calls -/
+theorem holdout_stepR {α} (draw : Nat → Nat) (p run : Nat) (hasEva : Bool) (s : Sets α) (hn : 1 ≤ s.tr.length) :
+    HoldoutStepR p run hasEva s (holdoutInitR draw p run hasEva s).st (holdoutInitR draw p run hasEva s).clears :=
+  ⟨holdout_step draw p run s hn, rfl⟩
+
+/-! ## the model is the code: extracted tables (tools/translate_validation.py → Gen.lean) -/
+
+/-- the container programs extracted from the CURRENT source are the ones the model stands for -/
+theorem holdout_table_matches_source : Gen.holdoutInit = Tables.holdoutInit := by decide
+theorem dss_tables_match_source :
+    Gen.dssInit = Tables.dssInit ∧ Gen.dssShake = Tables.dssShake ∧ Gen.dssClose = Tables.dssClose ∧
+    Gen.shakeImpl = Tables.shakeImpl ∧ Gen.moveToValidation = Tables.moveToValidation ∧
+    Gen.resetAgeDifficulty = Tables.resetAgeDifficulty ∧ Gen.clearEvaluators = Tables.clearEvaluators := by
+  decide
+theorem weight_tables_match_source :
+    Gen.targetSize = Tables.targetSize ∧ Gen.weight = Tables.weight ∧ Gen.weightSum = Tables.weightSum ∧
+    Gen.selectPred = Tables.selectPred ∧ Gen.pushBackOverloads = Tables.pushBackOverloads := by decide
+theorem protocol_tables_match_source :
+    Gen.searchRun = Tables.searchRun ∧ Gen.evolutionRun = Tables.evolutionRun ∧
+    Gen.installs = Tables.installs := by decide
+
+/-- Running the extracted program of `holdout_validation::init` on the abstract machine (64/32-bit
+    wrap-around arithmetic, faults on out-of-range iterators) IS `holdoutInit`: for every frame contents,
+    stream of raw draws and percentage < 100, with at least one training example and `n·100 < 2^64`,
+    run 0 ends without fault in the model's sets, consumes one draw per swap and clears the evaluator iff
+    it was given one. -/
+theorem holdout_program_is_model {α} (ops : ElemOps α) (env : Env) (s : Sets α) (rng clT clV : Nat)
+    (hp : env.perc < 100) (hn : 1 ≤ s.tr.length) (hsz : s.tr.length * 100 < 2 ^ 64) :
+    ∃ loc, runFn ops Tables.prog env 1 .holdoutInit [("run", 0)] none (M.enter s rng clT clV) =
+      some ⟨(holdoutInitR (drawOf env rng s.tr.length) env.perc 0 env.hasEvaT s).st.tr,
+            (holdoutInitR (drawOf env rng s.tr.length) env.perc 0 env.hasEvaT s).st.va, loc,
+            rng + (s.tr.length - skipOf s.tr.length env.perc),
+            clT + (holdoutInitR (drawOf env rng s.tr.length) env.perc 0 env.hasEvaT s).clears, clV, none⟩ := by
+  obtain ⟨loc, h⟩ := holdout_bridge0 ops env s rng clT clV hp hn hsz
+  refine ⟨loc, ?_⟩
+  rw [h]
+  cases env.hasEvaT <;> simp [holdoutInitR]
+
+/-- … and for later runs it returns at once, touching nothing. -/
+theorem holdout_program_later_runs {α} (ops : ElemOps α) (env : Env) (run : Nat) (s : Sets α)
+    (rng clT clV : Nat) (hrun : 0 < run) :
+    ∃ loc, runFn ops Tables.prog env 1 .holdoutInit [("run", run)] none (M.enter s rng clT clV) =
+      some ⟨s.tr, s.va, loc, rng, clT, clV, some none⟩ :=
+  holdout_bridge_later ops env run s rng clT clV hrun
+
+/-- The extracted programs of `dss::init`, `dss::shake`, `dss::close` (with `shake_impl`,
+    `move_to_validation`, `reset_age_difficulty`, `clear_evaluators` as callees) run without fault and
+    compute `dssInit`, `dssShake`, `dssClose`, for every partitioner, target size with `ts n ≤ n`, coin,
+    contents and counters. -/
+theorem dss_programs_are_model (env : Env) (s : St) (rng clT clV : Nat)
+    (hts : env.ts (s.va.length + s.tr.length) ≤ s.va.length + s.tr.length) :
+    (∀ run, ∃ loc, runFn exOps Tables.prog env 3 .dssInit [("run", run)] none (M.enter s rng clT clV) =
+      some ⟨(dssInit env.P env.ts env.sel s).st.tr, (dssInit env.P env.ts env.sel s).st.va, loc, rng,
+            clT + (dssInit env.P env.ts env.sel s).clears, clV + (dssInit env.P env.ts env.sel s).clears, none⟩) ∧
+    (∀ run, ∃ loc, runFn exOps Tables.prog env 2 .dssClose [("run", run)] none (M.enter s rng clT clV) =
+      some ⟨(dssClose s).st.tr, (dssClose s).st.va, loc, rng, clT + (dssClose s).clears,
+            clV + (dssClose s).clears, none⟩) ∧
+    (∀ g, 0 < env.gap → ∃ loc,
+      runFn exOps Tables.prog env 3 .dssShake [("generation", g)] none (M.enter s rng clT clV) =
+      some ⟨(dssShake env.P env.ts env.gap g env.sel s).st.tr, (dssShake env.P env.ts env.gap g env.sel s).st.va,
+            loc, rng, clT + (dssShake env.P env.ts env.gap g env.sel s).clears,
+            clV + (dssShake env.P env.ts env.gap g env.sel s).clears,
+            some (some (dssShake env.P env.ts env.gap g env.sel s).ret)⟩) := by
+  refine ⟨fun run => dssInit_bridge env run s rng clT clV hts,
+          fun run => dssClose_bridge env run s rng clT clV, ?_⟩
+  intro g hgap
+  by_cases hskip : g = 0 ∨ g % env.gap ≠ 0
+  · obtain ⟨loc, h⟩ := dssShake_bridge_skip env g s rng clT clV
+      (hskip.elim Or.inl (fun h => Or.inr ⟨hgap, h⟩))
+    exact ⟨loc, by rw [h]; simp [dssShake, hskip]⟩
+  · have hg : g ≠ 0 := fun h => hskip (Or.inl h)
+    have hd : g % env.gap = 0 := by
+      rcases Nat.eq_zero_or_pos (g % env.gap) with h | h
+      · exact h
+      · exact (hskip (Or.inr (by omega))).elim
+    obtain ⟨loc, h⟩ := dssShake_bridge_reshuffle env g s rng clT clV hg hgap hd hts
+    exact ⟨loc, by rw [h]; simp [dssShake, hskip]⟩
+
+/-- the extracted `double` chain of `target_size`, read over ℚ and truncated, is `targetSizeQ` -/
+theorem targetSize_table_is_model (n : Nat) :
+    (Tables.targetSize.evalQ n).floor.toNat = targetSizeQ n := by
+  have h1 : ∀ x : Rat, x / 1 = x := fun x => by grind
+  simp [Tables.targetSize, FE.evalQ, targetSizeQ, h1]
+
+/-! ## 64-bit weights: wrap-around, `weight_sum = 0`, and why it does not matter -/
+
+/-- the extracted weight / accumulation mean the machine weight and the machine weight sum -/
+theorem weight_tables_are_model (e : Ex) (l : List Ex) :
+    Tables.weight.eval e = weight64 e ∧ Tables.weightSum.eval l = weightSum64 l :=
+  ⟨weight_table_eval e, weightSum_table_eval l⟩
+
+/-- as long as `difficulty + age³ < 2^64` the machine weight is the documented one … -/
+theorem weight_no_wrap (e : Ex) (hd : e.diff + e.age * e.age * e.age < 2 ^ 64) : weight64 e = weight e :=
+  weight64_of_small e hd
+
+/-- … but it does wrap (age 2^22: age³ = 2^66), and the weight sum of a pool whose ages are all ≥ 1 can
+    be 0 (`k = target_size / 0`). -/
+theorem weight_wraps_and_sum_can_vanish :
+    weight64 ⟨7, 2 ^ 22, 0⟩ = 0 ∧ weight ⟨7, 2 ^ 22, 0⟩ = 2 ^ 66 ∧
+    weightSum64 [⟨1, 2 ^ 22, 0⟩, ⟨2, 2 ^ 63, 0⟩] = 0 ∧
+    weightSum64 [⟨1, 1, 2 ^ 63 - 1⟩, ⟨2, 1, 2 ^ 63 - 1⟩] = 0 := by decide
+
+/-- Whatever the coin does with the (possibly wrapped, possibly zero-sum) weights, a reshuffle satisfies
+    the reshuffle relation: both sets non-empty, counters restarted, validation unaltered, payloads
+    conserved. -/
+theorem shakeImplW_step (P : Partitioner) (ts : Nat → Nat) (hts : TsOK ts) (coin : Nat → Nat → Nat → Bool)
+    (s : St) (hn : 2 ≤ s.tr.length + s.va.length) : ReshuffleStep s (shakeImplW P ts coin s) :=
+  shakeImpl_reshuffle P ts hts _ s hn
+
+/-- **The permutation property does not depend on the weights at all**: two pools with the same payloads
+    but arbitrary (different) counters, arbitrary coins, arbitrary target sizes and partitioners end with
+    the same multiset of payloads. -/
+theorem conservation_independent_of_weights (P P' : Partitioner) (ts ts' : Nat → Nat)
+    (coin coin' : Nat → Nat → Nat → Bool) (s s' : St) (h : (ids (s.tr ++ s.va)).Perm (ids (s'.tr ++ s'.va))) :
+    (ids ((shakeImplW P ts coin s).tr ++ (shakeImplW P ts coin s).va)).Perm
+      (ids ((shakeImplW P' ts' coin' s').tr ++ (shakeImplW P' ts' coin' s').va)) :=
+  ((shakeImpl_ids_perm P ts _ s).trans h).trans (shakeImpl_ids_perm P' ts' _ s').symm
+
+/-- treating the selection as an arbitrary Boolean per position loses nothing -/
+theorem selection_is_arbitrary (sel : Nat → Bool) (pool : List Ex) :
+    ∃ coin, ∀ i, i < pool.length → selW coin pool i = sel i := selW_any sel pool
+
+/-! ## the call protocol of `search::run` (Protocol.lean, driven by the extracted token tables) -/
+
+/-- the schedule read off the token tables: per run `init(r)`, evaluation of the initial best, per
+    generation `shake(g)` – re-evaluation – breeding – callback, then `close(r)` and the metrics -/
+theorem search_schedule (plans : List RunPlan) :
+    searchEvents Tables.searchRun Tables.evolutionRun plans =
+      plans.zipIdx.flatMap fun (rp, r) =>
+        [Ev.init r rp.initO, .evalT rp.best0] ++
+        (rp.gens.zipIdx.flatMap fun (gp, g) => [Ev.shake g gp.shakeO, .evalT gp.reeval, .evalT gp.breed, .obs]) ++
+        [.close r, .evalV rp.metricsV, .evalT rp.metricsT] :=
+  searchEvents_eq plans
+
+/-- **"At every moment of any run"**: for every installed strategy (as-is, hold-out with or without
+    evaluator, DSS), every percentage, period, target size, partitioner, every session of `run(n)` calls,
+    every number of runs and generations, all draws and all evaluator activity – every state visited
+    holds exactly the payloads of the initial state, each once.  No precondition at all. -/
+theorem search_conserves (c : Cfg) (calls : List (List RunPlan)) (x : PS) :
+    ∀ y ∈ trace c (sessionEvents calls) x, (ids (y.s.tr ++ y.s.va)).Perm (ids (x.s.tr ++ x.s.va)) :=
+  trace_conserves c (sessionEvents calls) x
+
+/-- … and the same along ANY interleaving of strategy calls, evaluator passes and callbacks. -/
+theorem any_history_conserves (c : Cfg) (evs : List Ev) (x : PS) :
+    ∀ y ∈ trace c evs x, (ids (y.s.tr ++ y.s.va)).Perm (ids (x.s.tr ++ x.s.va)) :=
+  trace_conserves c evs x
+
+/-- **DSS inside `search::run`** (≥ 2 examples, `TsOK`): at every after_generation callback and every time
+    `shake` is entered, in every run of every `run(n)` of a session, both frames are non-empty and every
+    training example has age 1 (the assert of `dss::shake`); after the last `close` the training frame is
+    empty – all examples are in one frame. -/
+theorem dss_in_search (c : Cfg) (hd : c.strat = .dss) (hts : TsOK c.ts) (calls : List (List RunPlan)) (x : PS)
+    (h2 : 2 ≤ x.s.tr.length + x.s.va.length) :
+    (∀ y ∈ obsStates c (sessionEvents calls) x, y.s.tr ≠ [] ∧ y.s.va ≠ [] ∧ ∀ e ∈ y.s.tr, e.age = 1) ∧
+    (∀ y ∈ shakePre c (sessionEvents calls) x, y.s.tr ≠ [] ∧ y.s.va ≠ [] ∧ ∀ e ∈ y.s.tr, e.age = 1) ∧
+    ((calls.flatMap fun plans => plans.zipIdx) ≠ [] → (final c (sessionEvents calls) x).s.tr = []) := by
+  rw [sessionEvents_eq]
+  exact dss_runs c hd hts _ x h2
+
+/-- **Hold-out inside one `search::run(n)`**: see `holdout_search`. -/
+theorem holdout_in_search (c : Cfg) (b : Bool) (hs : c.strat = .holdout b) (rp : RunPlan) (rest : List RunPlan)
+    (x : PS) (hn : 1 ≤ x.s.tr.length) :
+    let x1 := step c (.init 0 rp.initO) x
+    x1.s.tr.length = skipOf x.s.tr.length c.perc ∧ x1.s.tr ≠ [] ∧
+    x1.clT = x.clT + (if b then 1 else 0) ∧
+    ∀ y ∈ trace c (searchEvents Tables.searchRun Tables.evolutionRun (rp :: rest)) x,
+      y = x ∨ (ids y.s.tr = ids x1.s.tr ∧ ids y.s.va = ids x1.s.va ∧ y.clT = x1.clT) :=
+  holdout_search c b hs rp rest x hn
+
+/-- With `validation_percentage = 0` hold-out moves nothing (the validation frame stays as it was). -/
+theorem holdout_percentage_zero {α} (draw : Nat → Nat) (s : Sets α) (hn : 1 ≤ s.tr.length) :
+    holdoutInit draw 0 0 s = s := by
+  have hk : skipOf s.tr.length 0 = s.tr.length := by
+    unfold skipOf; simp; omega
+  simp [holdoutInit, hk, shuffleTail]
+
+/-- **Every change is reported**: a strategy call that changes the training frame clears the training
+    evaluator in the same call, for every strategy `src_search` can install. -/
+theorem change_reported (c : Cfg) (hs : c.strat ≠ .holdout false) (e : Ev) (he : isCall e) (x : PS)
+    (hch : ids (step c e x).s.tr ≠ ids x.s.tr) : (step c e x).clT = x.clT + 1 :=
+  change_is_reported c hs e he x hch
+
+/-- **What a monitor of a real DSS search sees** is what the driver decides: an evaluator pass changes
+    only difficulties (`EvalRel`); from one callback to the next of the same run `GenObs`; from any earlier
+    moment to the first callback of a run `FreshObs`; from the last callback to the end of the run `EndObs`. -/
+theorem observations_are_model (c : Cfg) (hd : c.strat = .dss) (hts : TsOK c.ts) (x : PS) (h2 : 2 ≤ x.size) :
+    (∀ f, EvalRel x.s (step c (.evalT f) x).s ∧ EvalRel x.s (step c (.evalV f) x).s) ∧
+    (∀ g gp, GenObs c.gap g x.s (final c (genEv g gp) x).s) ∧
+    (∀ pre r o f gp, FreshObs x.s (final c (pre ++ ([.init r o, .evalT f] ++ genEv 0 gp)) x).s) ∧
+    (∀ r rp, EndObs x.s (final c (tailEv r rp) x).s) :=
+  ⟨fun f => ⟨evalT_rel c f x, evalV_rel c f x⟩,
+   fun g gp => dss_generation_obs c hd hts g gp x h2,
+   fun pre r o f gp => dss_fresh_obs c hd hts pre r o f gp x h2,
+   fun r rp => dss_end_obs c hd r rp x⟩
+
+theorem installed_strategies_report :
+    ∀ row ∈ Tables.installs, ∃ st, stratOf row = some st ∧ st ≠ .holdout false := installed_report
+
 /-! ### non-vacuity -/
 
 example : TsOK targetSizeQ := targetSizeQ_ok
 example : TsOK (fun n => n / 2) := by intro n hn; simp only; omega
 example : (holdoutInit (fun i => i / 2) 30 0 (⟨[1, 2, 3, 4, 5, 6, 7], []⟩ : Sets Nat)) =
     ⟨[1, 2, 5, 7], [6, 3, 4]⟩ := by decide
+
+-- hold-out program: hypotheses of `holdout_program_is_model` are satisfiable, and the machine really runs
+example : (7 : Nat) < 100 ∧ 1 ≤ [1, 2, 3].length ∧ [1, 2, 3].length * 100 < 2 ^ 64 := by decide
+example : (runFn (idOps Nat) Tables.prog ⟨30, 1, true, fun i => i * 7 + 3, fun _ => false, fun n => n / 2, stablePartition⟩
+    1 .holdoutInit [("run", 0)] none (M.enter ⟨[1, 2, 3, 4, 5, 6, 7], []⟩ 0 0 0)).map
+      (fun m => (m.tr, m.va, m.rng, m.clT)) = some ([1, 2, 6, 7], [3, 5, 4], 3, 1) := by decide
+-- DSS in search: a configuration meeting the hypotheses of `dss_in_search`
+example : (⟨.dss, 0, 2, stablePartition, fun n => n / 2⟩ : Cfg).strat = .dss ∧ TsOK (fun n => n / 2) :=
+  ⟨rfl, by intro n hn; simp only; omega⟩
+-- a reported change exists: DSS close with a non-empty training frame
+example : ids (step ⟨.dss, 0, 2, stablePartition, fun n => n / 2⟩ (.close 0) ⟨⟨[⟨1, 1, 0⟩], [⟨2, 1, 0⟩]⟩, 0, 0⟩).s.tr ≠
+    ids (⟨⟨[⟨1, 1, 0⟩], [⟨2, 1, 0⟩]⟩, 0, 0⟩ : PS).s.tr := by decide
+example : weight64 ⟨1, 3, 5⟩ = weight ⟨1, 3, 5⟩ := by decide
 
 end Vita.C16
